@@ -62,9 +62,9 @@ def write_flat(d, A, parts, offset=0, ext='.dat', stem='rec', same_name=False, s
     return paths
 
 
-def write_npy(d, A, stem='rec'):
+def write_npy(d, A, stem='rec', fortran=False):
     path = Path(d) / (stem + '.npy')
-    np.save(path, A)
+    np.save(path, np.asfortranarray(A) if fortran else A)        # (column-major: what a transposed (channels, samples) array is saved as)
     return path
 
 
@@ -85,14 +85,14 @@ def write_cbin(d, A, sample_rate, chunk_len, stem='rec', n_threads=1, do_time_di
     return out
 
 
-def open_cbin(path, n_threads=1, cache_size=None):
+def open_cbin(path, n_threads=1, cache_size=None, cmeta=None):
     """mtscomp.Reader with a chosen thread count (get_ephys_reader(path) would use cpu_count//2)."""
     import mtscomp
     kw = {'n_threads': n_threads}
     if cache_size:
         kw['cache_size'] = cache_size
     r = mtscomp.Reader(**kw)
-    r.open(path)
+    r.open(path, cmeta) if cmeta is not None else r.open(path)
     return r
 
 
